@@ -43,8 +43,8 @@ func blockIDGrid(thorough bool) []types.BlockID {
 	}
 	if thorough {
 		g = append(g,
-			types.BlockID{Hash: a.Hash}, // hash only, zero parts header
-			types.BlockID{PartsHeader: a.PartsHeader},                                                // parts only
+			types.BlockID{Hash: a.Hash},               // hash only, zero parts header
+			types.BlockID{PartsHeader: a.PartsHeader}, // parts only
 			types.BlockID{Hash: a.PartsHeader.Hash, PartsHeader: types.PartSetHeader{Total: 3, Hash: a.Hash}}, // hashes swapped
 			types.BlockID{Hash: a.Hash, PartsHeader: types.PartSetHeader{Total: 0, Hash: a.PartsHeader.Hash}},
 			types.BlockID{Hash: a.Hash, PartsHeader: types.PartSetHeader{Total: 3}},
